@@ -354,7 +354,8 @@ type c02RepoCase struct {
 }
 
 func c02Repository(r *core.Run) {
-	pool := allExprs(3, []string{"a", "b", "ab", ":x", ":*", "*r", "**", `\:a`})
+	// one wildcard name per kind, so that rule sets are only rejected for ownership reasons
+	pool := allExprs(3, []string{"a", "b", "ab", ":x", "*r", `\:a`})
 	paths := allPaths(4, []string{"a", "b", "ab", "c", ":a", ""})
 	methodSets := [][]string{nil, {"GET"}, {"POST"}, {"GET", "POST"}, {"ALL", "!GET"}}
 	methods := []string{"GET", "POST", "PUT"}
@@ -429,6 +430,9 @@ func c02Repository(r *core.Run) {
 			}
 			if err := a.Proc.OnCreated(mkRuleSet(s, rules...)); err != nil {
 				ok = false
+				if r.Counter("repo_sets_rejected") < 3 {
+					fmt.Println("[verif] C02 repo-level set rejected:", err)
+				}
 				break
 			}
 		}
